@@ -136,7 +136,8 @@ func (s *sched) hasArrived(key string) bool {
 // ---------------------------------------------------------------- one block run
 
 type prog struct {
-	World bool              `json:"world"`
+	World string            `json:"world"` // "N", "R" (world read lock + write locks), "W"
+	Ens   bool              `json:"ens"`   // Prepare calls WorldVirtualState.Ensure()
 	Lock  map[string]string `json:"lock"`
 	Ops   [][]string        `json:"ops"`
 	Fate  string            `json:"fate"`
@@ -162,6 +163,9 @@ type blockRun struct {
 	events   []map[string]interface{} // free-running recorder (per-thread order is what matters)
 	armed    bool
 	tr       module.Transition
+	cancel   func() bool
+	didCancel bool // the canceler was called and returned true
+	cancelAt int // sequential / free-running mode: call the canceler when this transaction starts executing (0: never)
 }
 
 // the block a harness transaction belongs to, by transaction id (goroutines of a failed block may outlive it)
@@ -231,9 +235,12 @@ func (t *peTx) Prepare(ctx contract.Context) (state.WorldContext, error) {
 	r := t.run()
 	p := t.prog()
 	var lq []state.LockRequest
-	if p.World {
+	if p.World == "W" {
 		lq = append(lq, state.LockRequest{ID: state.WorldIDStr, Lock: state.AccountWriteLock})
 	} else {
+		if p.World == "R" {
+			lq = append(lq, state.LockRequest{ID: state.WorldIDStr, Lock: state.AccountReadLock})
+		}
 		for _, name := range sortedKeys(p.Lock) {
 			switch p.Lock[name] {
 			case "R":
@@ -247,6 +254,13 @@ func (t *peTx) Prepare(ctx contract.Context) (state.WorldContext, error) {
 	inner := wc.WorldVirtualState()
 	res := wc.WorldStateChanged(&wvsWrap{WorldVirtualState: inner, r: r, idx: t.Idx})
 	r.record(map[string]interface{}{"th": "D", "op": "top", "t": t.Idx})
+	if p.Ens {
+		// as CallHandler.Prepare does: resolve every locked account now, in the dispatcher
+		r.s.note(fmt.Sprintf("future:%d", t.Idx), 0)
+		r.s.gate(fmt.Sprintf("ensure:%d", t.Idx))
+		inner.Ensure()
+		r.record(map[string]interface{}{"th": "D", "op": "ensure", "t": t.Idx})
+	}
 	r.s.note(fmt.Sprintf("prepared:%d", t.Idx), 0)
 	return res, nil
 }
@@ -260,6 +274,16 @@ func (t *peTx) Execute(ctx contract.Context, wcs state.WorldSnapshot, estimate b
 	r.mu.Unlock()
 	if att == 0 {
 		r.record(map[string]interface{}{"th": t.Idx, "op": "begin", "t": t.Idx})
+	}
+	if att == 0 && r.cancelAt == t.Idx {
+		r.mu.Lock()
+		c := r.cancel
+		r.mu.Unlock()
+		if c != nil && c() {
+			r.s.note("cancel-accepted", 0)
+		} else {
+			r.s.note("cancel-refused", 0)
+		}
 	}
 	r.s.note(fmt.Sprintf("exec:%d:%d", t.Idx, att), 0)
 	for i, op := range p.Ops {
@@ -379,8 +403,10 @@ func (w *wvsWrap) GetFuture(reqs []state.LockRequest) state.WorldVirtualState {
 
 func (w *wvsWrap) Commit() {
 	w.r.s.gate(fmt.Sprintf("commit:%d", w.idx))
-	w.WorldVirtualState.Commit()
+	// recorded before the call: the dispatcher's final Realize is woken from inside Commit, so the block can be
+	// reported as finished before this goroutine runs again (only the order within one thread matters to the trace spec)
 	w.r.record(map[string]interface{}{"th": w.idx, "op": "commit", "t": w.idx})
+	w.WorldVirtualState.Commit()
 	w.r.s.note(fmt.Sprintf("committed:%d", w.idx), 0)
 }
 
@@ -513,7 +539,10 @@ func (e *env) start(r *blockRun, level int, height int64, salt int64) error {
 	tr := service.NewTransition(itr, nil, list, common.NewBlockInfo(height, height*1000),
 		common.NewConsensusInfo(nil, nil, nil), true)
 	r.tr = tr
-	_, err = tr.Execute(&cb{s: r.s, r: r})
+	cancel, err := tr.Execute(&cb{s: r.s, r: r})
+	r.mu.Lock()
+	r.cancel = cancel
+	r.mu.Unlock()
 	return err
 }
 
